@@ -170,7 +170,7 @@ theorem rmtree_death_old_counterexample :
 
 /-- D3: the OLD protocol (done futures dropped unchecked, `close` only waits) admits a run that ends in "success"
 although a chunk write on the executor failed: the data is visible, the chunk file is missing, loading fails -/
-theorem old_protocol_swallows_failure_old_counterexample :
+theorem executor_failure_swallowed_old_counterexample :
     let r := (attempt FS.empty .executor { recheck := false } [c1, c2] (specOf .executor) .sorted (some ⟨7, .exc⟩)).1
     r.cfg.out = .success ∧ r.cfg.failed = true ∧ visible r.cfg.fs = true ∧ loadErr r.cfg.fs = some .osError := by decide
 
